@@ -186,6 +186,66 @@ def strip_debug_assertions(raw):
     return n
 
 
+def fold_constant_switches(raw):
+    """`if false { .. }`, `if true { .. } else { .. }`, `while false`: a branch on a literal is not a branch.  The switch
+    is replaced by a jump to the side it always takes and what becomes unreachable is emptied, so that a rule
+    looking for a call, a template or a store does not find it in dead code (and fails closed when its anchor only
+    exists there).  Returns the number of switches folded."""
+    blocks = raw.get("blocks") or []
+    n = 0
+    # temporaries that are assigned exactly once, a literal
+    defs = {}
+    for blk in blocks:
+        for st in blk["stmts"]:
+            if st["k"] == "assign":
+                defs.setdefault(st["p"]["l"], []).append(st if not st["p"]["proj"] else None)
+        t = blk["term"]
+        if t["k"] == "call" and t.get("dest"):
+            defs.setdefault(t["dest"]["l"], []).append(None)
+    argc = raw.get("argc", 0)
+
+    def literal(x):
+        if not isinstance(x, dict):
+            return None
+        if x.get("k") == "const" and "int" in x and "uneval" not in x:
+            return int(x["int"])
+        if x.get("k") in ("copy", "move") and not x["p"]["proj"] and x["p"]["l"] > argc:
+            ds = defs.get(x["p"]["l"], [])
+            if len(ds) == 1 and ds[0] is not None and ds[0]["r"]["k"] == "use":
+                y = ds[0]["r"]["x"]
+                if y.get("k") == "const" and "int" in y and "uneval" not in y:
+                    return int(y["int"])
+        return None
+
+    for blk in blocks:
+        t = blk["term"]
+        if t["k"] == "switch" and literal(t.get("x")) is not None:
+            v = literal(t["x"])
+            tgt = [bb for a_, bb in t["arms"] if int(a_) == v]
+            blk["term"] = {"k": "goto", "t": tgt[0] if tgt else t["otherwise"], "span": t["span"]}
+            n += 1
+    if n:
+        _empty_unreachable(blocks)
+        raw["_constant_switches_folded"] = n
+    return n
+
+
+def _empty_unreachable(blocks):
+    succ = lambda t: ([t["t"]] if t.get("t") is not None and t["k"] in ("goto", "drop", "assert", "call") else []) + ([bb for _, bb in t["arms"]] + [t["otherwise"]] if t["k"] == "switch" else []) + ([t["unwind"]] if t.get("unwind") is not None else [])
+    seen, st = set(), [0]
+    while st:
+        x = st.pop()
+        if x in seen or x >= len(blocks):
+            continue
+        seen.add(x)
+        st.extend(succ(blocks[x]["term"]))
+    for i, blk in enumerate(blocks):
+        if i not in seen:
+            blk["stmts"] = []
+            blk["term"] = {"k": "unreachable", "span": blk["term"].get("span", {"at": "?", "exp": []})}
+            blk["cleanup"] = True
+
+
 class FactBase:
     def __init__(self, files, inline=True):
         self.crates = {}
@@ -200,6 +260,7 @@ class FactBase:
             self.impls.extend(d.get("impls", []))
             for raw in d["bodies"]:
                 strip_debug_assertions(raw)
+                fold_constant_switches(raw)
                 if raw.get("kind") == "const" and not raw["path"].startswith("hvwitness::"):
                     v_ = _literal_of_const_body(raw)
                     if v_ is not None:
